@@ -19,6 +19,10 @@ CVC5_TIMEOUT_MS = int(os.environ.get('VERIF_CVC5_TIMEOUT_MS', '10000'))
 CVC5_BIN = '/usr/bin/cvc5'
 
 
+class VacuousContract(Exception):
+    pass
+
+
 class FunctionResult:
     def __init__(self, qualname):
         self.qualname = qualname
@@ -80,6 +84,13 @@ def generate(c, registry=REGISTRY):
         state.assume(spec_eval(ctx, ev, state, expr))
     ctx.entry = state.copy()
     ctx.requires_pc = list(state.pc)
+    # guard G-V: the pre-condition must be satisfiable (a contradictory `requires` proves anything)
+    sv = z3.Solver()
+    sv.set('timeout', 3000)
+    for f_ in state.pc:
+        sv.add(f_)
+    if sv.check() == z3.unsat:
+        raise VacuousContract(f"{c.qualname}: requires is unsatisfiable (guard G-V)")
     outs = ex.block(fn.body, state)
     entry_env = ctx.entry.env
     n_paths = 0
@@ -259,6 +270,10 @@ def verify_function(c, registry=REGISTRY, timeout_ms=None):
         return res, None
     except Unsupported as e:
         res.status = 'unsupported'
+        res.message = str(e)
+        return res, None
+    except VacuousContract as e:
+        res.status = 'vacuous'
         res.message = str(e)
         return res, None
     except Exception as e:
